@@ -251,6 +251,11 @@ def run_shard(args):
             pfiles["test_exec.py"] = "def test_exec_sample():\n    ns = {}\n    exec('from inline_snapshot import snapshot\\nassert 1 == snapshot(1)\\nassert [1, 2] == snapshot([1, 2])\\n', ns)\n"
             extra_args = ["--doctest-modules"]
             C["sessions_with_sourceless_snapshots"] = C.get("sessions_with_sourceless_snapshots", 0) + 1
+        if (args.shard + c) % 3 == 1 and not pathargs:
+            # a test module that cannot be imported (still being edited): an ordinary collection error for pytest,
+            # the other modules' snapshots are processed as usual
+            pfiles["test_being_edited.py"] = "from inline_snapshot import snapshot\n\n\ndef test_unfinished(:\n    assert 1 == snapshot(\n"
+            C["sessions_with_unimportable_module"] = C.get("sessions_with_unimportable_module", 0) + 1
         proj = session.Project(pfiles)
         try:
             r = session.run_session(proj, fargs + extra_args + pathargs, cwd_sub=cwd_sub, env={"FORCE_COLOR": "true", "PYTHONPATH": ":".join([common.SRC, str(common.VERIF), str(common.VERIF / "stubs")])} if stdin else {"PYTHONPATH": ":".join([common.SRC, str(common.VERIF), str(common.VERIF / "stubs")])}, stdin=stdin)
